@@ -293,6 +293,8 @@ func KV(r *core.Rng, p KVParams) *prog.Program {
 			} else {
 				st.End = "fnerr"
 			}
+		} else if r.Bool(0.08) {
+			st.End = "manual" // Begin / Commit / Rollback by hand instead of Update
 		}
 		pg.Steps = append(pg.Steps, st)
 		if p.Views && r.Bool(0.4) {
